@@ -141,8 +141,10 @@ Abs1(v) == IF v < 0 THEN -v ELSE v
 Con(t, cols, cf, k, s) == [t |-> t, cols |-> cols, co |-> {<<c, s * cf[c]>> : c \in {c \in cols : cf[c] # 0}}, k |-> s * k]
 RowCons(st, i) ==
     LET l == st.rows[i].label  ty == st.rows[i].type  R == RowRange(st, l)
-        cols == RowCols(st, l)  k == RowConst(st, l)
-        cf == [c \in cols |-> RowCoef(st, l, c)]
+        E == {q \in DOMAIN st.ents : st.ents[q].row = l}                         \* the entries of this row (computed once)
+        cols == {st.ents[q].col : q \in E}
+        k == RowConst(st, l)
+        cf == [c \in cols |-> st.ents[MaxOf({q \in E : st.ents[q].col = c})].val]   \* the last entry for a pair counts
     IN  CASE ty = "L" -> <<Con("<", cols, cf, k, 1)>> \o (IF R # NoV THEN <<Con("<", cols, cf, k + Abs1(R), -1)>> ELSE <<>>)        \* rhs - |R| <= a'x <= rhs
           [] ty = "G" -> <<Con("<", cols, cf, k, -1)>> \o (IF R # NoV THEN <<Con("<", cols, cf, k - Abs1(R), 1)>> ELSE <<>>)       \* rhs <= a'x <= rhs + |R|
           [] ty = "E" -> IF R = NoV \/ R = 0 THEN <<Con("=", cols, cf, k, 1)>>
